@@ -1073,7 +1073,10 @@ def cone_lifecycle(ctx):
              (dict(fcGiven=False, rebuilt=False), ['static', 'lb']),
              (dict(fcGiven=False, rebuilt=False), ['uvw', 'strain', 'k0', 'uvw', 'fint', 'stress']),
              (dict(fcGiven=False, rebuilt=True), ['fint']), (dict(fcGiven=True, rebuilt=True), ['stress']),
-             (dict(fcGiven=True, rebuilt=False), ['static', 'lb', 'static', 'lb', 'fext'])]
+             (dict(fcGiven=True, rebuilt=False), ['static', 'lb', 'static', 'lb', 'fext']),
+             # first-order shear models: the shear-correction factor is applied to the laminate matrix at every re-evaluation
+             (dict(fcGiven=True, rebuilt=True, model='fsdt_donnell_bc1'), ['lb', 'lb', 'k0', 'lb']),
+             (dict(fcGiven=True, rebuilt=True, model='fsdt_donnell_bcn'), ['static', 'lb', 'static', 'lb'])]
     for _ in range(ctx.scale(10, 100)):
         cases.append((dict(fcGiven=rng.random() < 0.5, rebuilt=rng.random() < 0.5),
                       [rng.choice(CONE_OPS) for _ in range(rng.choice([1, 2, 3, 5, 7]))]))
@@ -1345,12 +1348,51 @@ def plot_clause(ctx, hook=None):
     ctx.cov['plots'] = 'Panel.plot (Agg, vec in w/exx/Nxx) between uvw calls: stored u,v,w restored, uvw unchanged'
 
 
+def cone_inputs(ctx):
+    """caller-supplied amplitude vectors of ConeCyl field / force queries are not modified and repeated queries agree, also for
+    a load level inc != 1 with non-zero prescribed amplitudes (calc_full_c scales the prescribed entries of a COPY)"""
+    rng = ctx.rng
+    for trial in range(ctx.scale(3, 12)):
+        CD = dict(fcGiven=True, rebuilt=True, angles=[0, 45, -45], r2=rng.uniform(150, 400), H=rng.uniform(300, 600),
+                  alphadeg=rng.choice([0., 15.]), model=rng.choice(['clpt_donnell_bc1', 'clpt_donnell_bc3']))
+        cc = build_cone(CD)
+        cc.betadeg = rng.choice([0.5, -1., 2.])
+        cc.thetaTdeg = rng.choice([0., 0.3])
+        inc = rng.choice([0.5, 0.25, 0.8])
+        with quiet():
+            cc.calc_k0(silent=True)
+            size = cc.get_size()
+            for layout in ('full', 'reduced'):
+                n = size if layout == 'full' else size - len(cc.excluded_dofs)
+                c = np.ascontiguousarray(np.linspace(-1, 1, n) * 1e-2 + 0.05)
+                c0 = c.copy()
+                for name, call in (('uvw', lambda: tuple(np.array(x) for x in cc.uvw(c, gridx=3, gridt=5, inc=inc))),
+                                   ('strain', lambda: np.array(cc.strain(c, gridx=3, gridt=5, inc=inc))),
+                                   ('calc_fint', lambda: np.array(cc.calc_fint(c, inc=inc, silent=True)))):
+                    try:
+                        r1 = call()
+                        r2 = call()
+                    except Exception:
+                        continue
+                    ctx.evaluations += 2
+                    if not np.array_equal(c, c0):
+                        ctx.violation('ConeCyl.%s(c, inc=%r) modified the caller-supplied %s amplitude vector (prescribed amplitudes '
+                                      'betadeg=%r, thetaTdeg=%r)' % (name, inc, layout, cc.betadeg, cc.thetaTdeg),
+                                      dict(kind='cone_inputs', definition=CD, call=name, inc=inc, layout=layout))
+                        return
+                    if not same_result(r1, r2):
+                        ctx.violation('ConeCyl.%s(c, inc=%r) called twice with the same %s vector returns different results'
+                                      % (name, inc, layout), dict(kind='cone_inputs', definition=CD, call=name, inc=inc, layout=layout))
+                        return
+    ctx.cov['cone_inputs'] = 'uvw / strain / calc_fint with inc != 1 and non-zero prescribed amplitudes: caller vector unchanged, repeat identical'
+
+
 def correspondence(ctx):
     d = panel_lifecycle(ctx)
     ctx.log('panel: %d cases, outcomes %s' % (d['cases'], d['outcomes']))
     if ctx.violations:
         return
-    for part in (asm_lifecycle, bay_lifecycle, thread_clauses, analysis_inputs, plot_clause, cone_lifecycle):
+    for part in (asm_lifecycle, bay_lifecycle, thread_clauses, analysis_inputs, plot_clause, cone_inputs, cone_lifecycle):
         part(ctx)
         ctx.log(part.__name__, 'done')
         if ctx.violations:
